@@ -27,6 +27,8 @@ CLAIMED = {
              note="Trusted: TLC, Cal.tla, drivers/split.py (string parsing of split names, stub tidd sub-models with distinct constants). Completeness of the candidate list is not demanded (not in the statement)."),
  "C14": dict(engine="Settings", design="6 C14", text="SettingsTable.tla pins, as literal TLA+, the approved constant, developer flag, a valid alternative and an invalid value of all 174 fields of the current / legacy / billing / hourly settings trees; SettingsDefs.tla states the lock (developer field + alternative without developer mode => rejected), rejection of invalid values, acceptance of permitted ones with only the requested field changed, 14 cross-field cases and stored-settings equality; Settings.tla enumerates the whole space (5.6k constructions) which is replayed exhaustively on real DailyModel / BillingModel / HourlyModel constructors, every outcome judged by TLC (SettingsTrace).",
              note="Trusted: TLC, the pinned table (generated once from the code by tools/gen_settings_table.py, then frozen), drivers/settings.py (canonical JSON of dumped values, numbers compared as numbers)."),
+ "C16": dict(engine="Metrics", design="6 C16", text="MetricsDefs.tla computes n, SSE, MSE, RMSE^2 and its adjusted form, MAE, bias, CVRMSE^2, PNRMSE^2 (IQR by linear interpolation of order statistics), NMAE, NMBE, R^2, lag-1 autocorrelation (rho^2, sign, n' through ((n-n')/(n+n'))^2) and savings as exact rationals (Rat.tla) with 'undefined' where a denominator is not positive; Metrics.tla checks the identities the statement names and the hourly gate table with TLC and enumerates all integer series pairs of length 2-3 with non-finite markers; the real BaselineMetrics / ReportingMetrics are run on every sampled pair and on seeded longer series, values snapped to rationals and compared by TLC; the 4x4 hourly gate table runs on the real _model_fit_is_acceptable; stored hourly metrics are compared with the metrics of predict(baseline) on non-interpolated rows and the poor-fit disqualification of 9 real fits with the gate on the reported statistic.",
+             note="Trusted: TLC, Rat.tla (32-bit: numbers capped at 40000, correlation-type statistics only on short series), drivers/metrics.py snapping. Open findings: nmbe / nmae / cvrmse are numbers for non-positive observed means in the cases listed in known_findings.json."),
  "C17": dict(engine="Prep", design="6 C17", text="PrepDefs.tla states the per-cell rule of hourly data preparation (supplied finite value => kept and unflagged; not supplied - NaN, zero electric usage, absent row - => flagged and present unless the whole column is empty; a duplicated timestamp keeps its first row; gap-free whole-day index); Prep.tla enumerates every pattern of 2-3 consecutive hours over row x temperature x usage x irradiance classes, electric / gas; each pattern is embedded in real frames of 4..400 days (ragged edge days, DST change, leap day, empty usage column, background gaps) and the frame returned by HourlyBaselineData / HourlyReportingData is compared with the supplied one cell by cell, judged by TLC (PrepTrace).",
              note="Trusted: TLC, drivers/prep.py (construction of the supplied-truth frame, per-cell comparison). On-the-hour local input of at least 4 days."),
  "C18": dict(engine="Seg", design="6 C18", text="SegDefs.tla states the four month-weight tables (doubled integers), prediction routing, the temperature-bin function, the occupied/unoccupied split and hour-of-week; Seg.tla checks partition of unity, routing = inverse of full weight, the bin theorems and 24*dow+hour onto 0..167 with TLC and enumerates cases; every weight / routing case is decided on all hours of its month in a leap and a non-leap year and 2-4 zones against the real segment_time_series and a CalTRACKHourlyModel wired with provenance-tagged month models; bin, occupancy and time features are replayed on the real functions; all judged by TLC (SegTrace).",
